@@ -187,6 +187,10 @@ impl ControlNetwork {
 
     /// Construct a new control network and bind to an interface.
     pub fn bind(interface: &str, name: &Name) -> io::Result<Self> {
+        #[cfg(feature = "verif")]
+        if let Some(socket) = CANSocket::bind_verif(interface) {
+            return Ok(Self::from_socket(socket?, name, interface));
+        }
         let socket = CANSocket::bind(&SockAddrCAN::new(interface))?;
         Ok(Self::from_socket(socket, name, interface))
     }
